@@ -168,9 +168,9 @@ impl State {
               self.prio[last] = self.prio.iter().min().copied().unwrap_or(1).saturating_sub(1);
               self.spin_run = 0;
             }
-          } else {
-            self.spin_run = 0;
           }
+          // (not reset by the spinner's own non-spin steps: a `loop { load; spin_loop() }` wait
+          // alternates both kinds; the count restarts when another thread gets to run, see below)
         }
         if self.change_points.contains(&self.steps) {
           // demote the currently highest-priority eligible thread
@@ -182,6 +182,9 @@ impl State {
       }
       _ => el[(xorshift(&mut self.rng) % el.len() as u64) as usize],
     };
+    if self.choices.last() != Some(&c) {
+      self.spin_run = 0;
+    }
     self.choices.push(c);
     Some(c)
   }
@@ -599,6 +602,42 @@ pub fn block_on<F: std::future::Future>(fut: F) -> F::Output {
       verif::Parker::park();
     }
   }
+}
+
+/// Polls `fut` once with a waker that unparks the calling thread.  Ready: Some(output).  Pending: parks
+/// (through the scheduler) until that waker has been invoked and returns None WITHOUT polling again,
+/// so that the caller can drop a future that was woken but not re-polled.
+pub fn poll_then_wait_woken<F: std::future::Future>(fut: std::pin::Pin<&mut F>) -> Option<F::Output> {
+  use std::sync::atomic::{AtomicBool, Ordering};
+  use std::task::{Context, Poll, Wake, Waker};
+  struct W {
+    p: verif::Parker,
+    woken: AtomicBool,
+  }
+  impl Wake for W {
+    fn wake(self: Arc<Self>) {
+      self.woken.store(true, Ordering::SeqCst);
+      self.p.unpark();
+    }
+  }
+  let w = Arc::new(W { p: verif::Parker::current(), woken: AtomicBool::new(false) });
+  let waker = Waker::from(w.clone());
+  let mut cx = Context::from_waker(&waker);
+  if let Poll::Ready(v) = fut.poll(&mut cx) {
+    return Some(v);
+  }
+  while !w.woken.swap(false, Ordering::SeqCst) {
+    verif::Parker::park();
+  }
+  None
+}
+
+/// A pure scheduling point for harness code (e.g. between polling a future and dropping it):
+/// a self-unpark followed by a park that consumes the token, both of which yield to the scheduler.
+pub fn yield_point() {
+  let p = verif::Parker::current();
+  p.unpark();
+  verif::Parker::park();
 }
 
 pub fn ord_name(o: Option<std::sync::atomic::Ordering>) -> &'static str {
